@@ -137,6 +137,35 @@ fn one_case(ctx: &Ctx, case: u64, l: &mut Local) {
                         o => if o.is_panic() { "panic" } else { "holder-err" },
                     }
                 };
+                // ... and ONE holder of each form used twice (key-bound presentation for this selection,
+                // then an unbound one for a narrower selection) ends up with the same disclosures
+                let sel_b = crate::gen::narrow_selection(&mut r, &sel);
+                let twice = |f: Fmt, text: &str| -> Outcome<Vec<String>> {
+                    match api::holder_new(text, f) {
+                        Outcome::Ok(mut h) => {
+                            let _ = api::present(&mut h, &sel, Some(k));
+                            api::present(&mut h, &sel_b, None).map(|p| {
+                                let mut d = Parts::parse(f, &p).map(|x| x.disclosures).unwrap_or_default();
+                                d.sort();
+                                d
+                            })
+                        }
+                        o => o.map(|_| vec![]),
+                    }
+                };
+                let (ta, tb) = (twice(fmt0, &issued.sd_jwt), twice(other, &trans));
+                l.evals += 1;
+                if (ta == tb && ta.is_ok()) || (ta.class() == tb.class() && !ta.is_ok()) {
+                    l.count("holder.reused.same-selection");
+                } else {
+                    l.violate(Violation {
+                        subcheck: "holder-selection-differs-between-formats".into(),
+                        class: format!("reused holder, key-bound then unbound presentation ({} vs {})", fmt0.name(), other.name()),
+                        observed: format!("{} vs {}", ta.class(), tb.class()),
+                        case,
+                        detail: json!({"credential": desc, "second_selection": sel_b, "first": ta.ok(), "second": tb.ok()}),
+                    });
+                }
                 let (va, vb) = (full(fmt0, &issued.sd_jwt), full(other, &trans));
                 l.evals += 1;
                 if va == vb {
